@@ -314,3 +314,8 @@ CLAIMS['C10']['note'] += ('; bounded stand-in async_batch_schedules: 96 cases - 
                           'concurrent on/off x a failing element, on the real AsyncDispatcher (labelled bounded)')
 CLAIMS['C11']['note'] += ('; bounded stand-in sync_async_differential: the two real dispatchers on a 30-text corpus and the two '
                           'real clients on 8 scripted exchanges incl. tracer events (labelled bounded)')
+CLAIMS['C08']['note'] += ('; BatchResponse.from_json (acceptance, element error classes) and BatchResponse.result (only '
+                          'JsonRpcError escapes - the batch error or the error object of a response; a normal return copies the '
+                          'results position by position) are under contract; that result raises EXACTLY when something failed is '
+                          'not proved; the call-order of the responses after matching is established by BaseBatch._relate '
+                          '(bounded stand-in)')
